@@ -79,7 +79,7 @@ func runTrace(t *testing.T, it conformItem, loop bool) (log []string, key string
 		for _, o := range w.Apply(e) {
 			log = append(log, obsSig(o))
 		}
-		for !loop && w.VS.Snapshot().MsgEvent > 0 {
+		for !loop && w.VS.Snapshot().MsgEvent > 0 && w.Enabled(sessmc.EvFlush()) {
 			for _, o := range w.Apply(sessmc.EvFlush()) {
 				log = append(log, obsSig(o))
 			}
